@@ -3,10 +3,12 @@ package props
 // C08 — Tunnel packets: produced exactly when due, gap-free sequence, atomic fee.
 
 import (
+	"bytes"
 	"encoding/hex"
 	"fmt"
 	"math/big"
 	"sort"
+	"strings"
 	"testing"
 	"time"
 
@@ -24,6 +26,7 @@ import (
 
 	"verif/harness/gen"
 	"verif/harness/pbt"
+	"verif/harness/ref"
 	"verif/harness/sim"
 	"verif/harness/tssworld"
 )
@@ -162,6 +165,8 @@ type c08World struct {
 	totalBase                       sdk.Coins
 	failedSend, deactivatedUnfunded int
 	notDue                          int
+	signedPackets                   int // packets whose signed bytes were decoded and compared with the stored packet
+	signedNonAvailable              int // ... price entries of those packets that were not AVAILABLE (delisted / not ready)
 }
 
 func (w *c08World) routeFee() sdk.Coins {
@@ -561,7 +566,11 @@ func runC08(c c08Case) *pbt.Verdict {
 			dep := sdk.NewCoins(sdk.NewInt64Coin("uband", 10))
 			var msg sdk.Msg
 			if op.Route == "tss" {
-				msg, _ = tunneltypes.NewMsgCreateTSSTunnel(sds, op.Interval, "eth", "0xabc", feedstypes.ENCODER_FIXED_POINT_ABI, dep, w.creator.Addr.String())
+				enc := feedstypes.ENCODER_FIXED_POINT_ABI
+				if tunnelCount%2 == 1 { // every second tunnel signs tick-encoded packets
+					enc = feedstypes.ENCODER_TICK_ABI
+				}
+				msg, _ = tunneltypes.NewMsgCreateTSSTunnel(sds, op.Interval, "eth", "0xabc", enc, dep, w.creator.Addr.String())
 			} else {
 				msg, _ = tunneltypes.NewMsgCreateIBCTunnel(sds, op.Interval, dep, w.creator.Addr.String())
 			}
@@ -718,6 +727,13 @@ func runC08(c c08Case) *pbt.Verdict {
 	v.Count("failed_send", int64(w.failedSend))
 	v.Count("not_due", int64(w.notDue))
 	v.Count("tunnels", int64(len(w.tunnels)))
+	if w.signedPackets > 0 {
+		v.Class("signed-packet-decoded")
+	}
+	if w.signedNonAvailable > 0 {
+		v.Class("signed-packet-with-non-available-price")
+	}
+	v.Count("signed_packets_decoded", int64(w.signedPackets))
 	v.NonTrivial = dev && intv && (w.failedSend > 0 || w.deactivatedUnfunded > 0)
 	_ = deposits
 	return v
@@ -772,67 +788,84 @@ func (w *c08World) checkPacket(t *c08Tunnel, prices []feedstypes.Price, now int6
 	return true
 }
 
+// c08MoneyOnly: run as a donor for C13 - only the money checks (fee payer balances, module balances = escrow, recorded
+// fee totals, nonce queues) are evaluated, so that a fee charged for a service that was not rendered is reported as
+// such even when the tunnel bookkeeping is wrong as well.
+var c08MoneyOnly bool
+
 func (w *c08World) compare(now int64) bool {
 	v, ch := w.v, w.ch
 	ctx := ch.Ctx()
 	k := ch.App.TunnelKeeper
 	for _, t := range w.tunnels {
-		tn, err := k.GetTunnel(ctx, t.id)
-		if err != nil {
-			v.Failf("C08/missing-tunnel", "tunnel %d: %v", t.id, err)
-			return false
-		}
-		if tn.Sequence != t.seq {
-			v.Failf("C08/sequence", "tunnel %d sequence %d, reference %d", t.id, tn.Sequence, t.seq)
-			return false
-		}
-		if tn.IsActive != t.active {
-			v.Failf("C08/active-flag", "tunnel %d active=%v, reference %v", t.id, tn.IsActive, t.active)
-			return false
-		}
-		for s := uint64(1); s <= t.seq; s++ {
-			if _, err := k.GetPacket(ctx, t.id, s); err != nil {
-				v.Failf("C08/sequence-gap", "tunnel %d has sequence %d but packet %d is missing", t.id, t.seq, s)
-				return false
-			}
-		}
-		if _, err := k.GetPacket(ctx, t.id, t.seq+1); err == nil {
-			v.Failf("C08/orphan-packet", "tunnel %d stores packet %d beyond its sequence %d", t.id, t.seq+1, t.seq)
-			return false
-		}
-		lp, err := k.GetLatestPrices(ctx, t.id)
-		if err != nil {
-			v.Failf("C08/latest-prices", "tunnel %d: %v", t.id, err)
-			return false
-		}
-		if lp.LastInterval != t.lastIntvl {
-			v.Failf("C08/last-interval", "tunnel %d last full send %d, reference %d", t.id, lp.LastInterval, t.lastIntvl)
-			return false
-		}
-		if len(lp.Prices) != len(t.latest) {
-			v.Failf("C08/latest-prices", "tunnel %d remembers %d prices, reference %d", t.id, len(lp.Prices), len(t.latest))
-			return false
-		}
-		for _, p := range lp.Prices {
-			want := t.latest[p.SignalID]
-			if p.Price != want.Price || p.Status != want.Status {
-				v.Failf("C08/latest-prices", "tunnel %d remembers %s=%d(%v), reference %d(%v)", t.id, p.SignalID, p.Price, p.Status, want.Price, want.Status)
-				return false
-			}
-		}
-		if t.seq > 0 {
-			pk, _ := k.GetPacket(ctx, t.id, t.seq)
-			base, route := w.feeOf(t)
-			if !pk.BaseFee.Equal(base) || !pk.RouteFee.Equal(route) {
-				v.Failf("C08/packet-fee", "tunnel %d packet %d records fees %s + %s, reference %s + %s", t.id, t.seq, pk.BaseFee, pk.RouteFee, base, route)
-				return false
-			}
-			for _, p := range pk.Prices {
-				want, ok := t.latest[p.SignalID]
-				if !ok || want.Price != p.Price || want.Status != p.Status {
-					v.Failf("C08/packet-prices", "tunnel %d packet %d carries %s=%d(%v), reference %v", t.id, t.seq, p.SignalID, p.Price, p.Status, want)
+		if !c08MoneyOnly {
+			okStruct := func() bool {
+				tn, err := k.GetTunnel(ctx, t.id)
+				if err != nil {
+					v.Failf("C08/missing-tunnel", "tunnel %d: %v", t.id, err)
 					return false
 				}
+				if tn.Sequence != t.seq {
+					v.Failf("C08/sequence", "tunnel %d sequence %d, reference %d", t.id, tn.Sequence, t.seq)
+					return false
+				}
+				if tn.IsActive != t.active {
+					v.Failf("C08/active-flag", "tunnel %d active=%v, reference %v", t.id, tn.IsActive, t.active)
+					return false
+				}
+				for s := uint64(1); s <= t.seq; s++ {
+					if _, err := k.GetPacket(ctx, t.id, s); err != nil {
+						v.Failf("C08/sequence-gap", "tunnel %d has sequence %d but packet %d is missing", t.id, t.seq, s)
+						return false
+					}
+				}
+				if _, err := k.GetPacket(ctx, t.id, t.seq+1); err == nil {
+					v.Failf("C08/orphan-packet", "tunnel %d stores packet %d beyond its sequence %d", t.id, t.seq+1, t.seq)
+					return false
+				}
+				lp, err := k.GetLatestPrices(ctx, t.id)
+				if err != nil {
+					v.Failf("C08/latest-prices", "tunnel %d: %v", t.id, err)
+					return false
+				}
+				if lp.LastInterval != t.lastIntvl {
+					v.Failf("C08/last-interval", "tunnel %d last full send %d, reference %d", t.id, lp.LastInterval, t.lastIntvl)
+					return false
+				}
+				if len(lp.Prices) != len(t.latest) {
+					v.Failf("C08/latest-prices", "tunnel %d remembers %d prices, reference %d", t.id, len(lp.Prices), len(t.latest))
+					return false
+				}
+				for _, p := range lp.Prices {
+					want := t.latest[p.SignalID]
+					if p.Price != want.Price || p.Status != want.Status {
+						v.Failf("C08/latest-prices", "tunnel %d remembers %s=%d(%v), reference %d(%v)", t.id, p.SignalID, p.Price, p.Status, want.Price, want.Status)
+						return false
+					}
+				}
+				if t.seq > 0 {
+					pk, _ := k.GetPacket(ctx, t.id, t.seq)
+					base, route := w.feeOf(t)
+					if !pk.BaseFee.Equal(base) || !pk.RouteFee.Equal(route) {
+						v.Failf("C08/packet-fee", "tunnel %d packet %d records fees %s + %s, reference %s + %s", t.id, t.seq, pk.BaseFee, pk.RouteFee, base, route)
+						return false
+					}
+					for _, p := range pk.Prices {
+						want, ok := t.latest[p.SignalID]
+						if !ok || want.Price != p.Price || want.Status != p.Status {
+							v.Failf("C08/packet-prices", "tunnel %d packet %d carries %s=%d(%v), reference %v", t.id, t.seq, p.SignalID, p.Price, p.Status, want)
+							return false
+						}
+					}
+					if t.route == "tss" && !w.checkSignedPacket(t, pk) {
+						return false
+					}
+				}
+
+				return true
+			}()
+			if !okStruct {
+				return false
 			}
 		}
 		got := ch.App.BankKeeper.GetAllBalances(ctx, sdk.MustAccAddressFromBech32(t.feePayer))
@@ -866,6 +899,114 @@ func (w *c08World) compare(now int64) bool {
 	return true
 }
 
+// checkSignedPacket: the bytes the group was asked to sign for a TSS-route packet must decode (reference decoders) to the
+// packet stored on chain: tunnel originator, creation time, sequence and EVERY price entry of the stored packet.
+func (w *c08World) checkSignedPacket(t *c08Tunnel, pk tunneltypes.Packet) bool {
+	v, ch := w.v, w.ch
+	ctx := ch.Ctx()
+	rc, err := pk.GetReceiptValue()
+	if err != nil {
+		return true // no receipt recorded: nothing was sent for signing
+	}
+	tr, ok := rc.(*tunneltypes.TSSPacketReceipt)
+	if !ok {
+		v.Failf("C08/receipt-kind", "tunnel %d (tss route) packet %d has a receipt of type %T", t.id, pk.Sequence, rc)
+		return false
+	}
+	bs, err := ch.App.BandtssKeeper.GetSigning(ctx, tr.SigningID)
+	if err != nil || bs.CurrentGroupSigningID == 0 {
+		return true
+	}
+	sg, err := ch.App.TSSKeeper.GetSigning(ctx, bs.CurrentGroupSigningID)
+	if err != nil {
+		v.Failf("C08/signing-missing", "tunnel %d packet %d: receipt names signing %d which does not exist: %v", t.id, pk.Sequence, bs.CurrentGroupSigningID, err)
+		return false
+	}
+	w.signedPackets++
+	ps, err := ref.ParseSigningMessage(sg.Message)
+	if err != nil {
+		v.Failf("C11/signed-tunnel-packet", "tunnel %d packet %d: %v", t.id, pk.Sequence, err)
+		return false
+	}
+	if want := ref.EncKeccak256(ref.EncodeTunnelOriginator(ch.Cfg.ChainID, t.id, "eth", "0xabc")); !bytes.Equal(ps.OriginatorHash, want) {
+		v.Failf("C11/signed-tunnel-packet", "tunnel %d packet %d: signed message is not bound to the tunnel originator (chain %s, tunnel %d, eth, 0xabc)", t.id, pk.Sequence, ch.Cfg.ChainID, t.id)
+		return false
+	}
+	route, kind, body, err := ref.SplitContent(ps.Content)
+	if err != nil || route != ref.RouteTunnel || (kind != ref.KindFixedPointABI && kind != ref.KindTickABI) {
+		v.Failf("C11/signed-tunnel-packet", "tunnel %d packet %d: signed content tagged %s/%s (%v)", t.id, pk.Sequence, route, kind, err)
+		return false
+	}
+	seq, rps, createdAt, err := ref.DecodeTunnelPacket(body)
+	if err != nil {
+		v.Failf("C11/signed-tunnel-packet", "tunnel %d packet %d: signed content does not decode: %v", t.id, pk.Sequence, err)
+		return false
+	}
+	if seq != pk.Sequence || createdAt != pk.CreatedAt || len(rps) != len(pk.Prices) {
+		v.Failf("C11/signed-tunnel-packet", "tunnel %d: signed content says sequence %d created %d with %d prices, the stored packet has sequence %d created %d with %d prices (%v)",
+			t.id, seq, createdAt, len(rps), pk.Sequence, pk.CreatedAt, len(pk.Prices), pk.Prices)
+		return false
+	}
+	for i, p := range pk.Prices {
+		if rps[i].SignalID != p.SignalID || (kind == ref.KindFixedPointABI && rps[i].Value != p.Price) {
+			v.Failf("C11/signed-tunnel-packet", "tunnel %d packet %d entry %d: signed %s=%d, stored %s=%d", t.id, pk.Sequence, i, rps[i].SignalID, rps[i].Value, p.SignalID, p.Price)
+			return false
+		}
+		if p.Status != feedstypes.PRICE_STATUS_AVAILABLE {
+			w.signedNonAvailable++
+		}
+	}
+	return true
+}
+
 var _ = hex.EncodeToString
 
 func TestC08(t *testing.T) { pbt.Check(t, "C08", genC08, runC08) }
+
+// TestC11Tunnel re-uses the tunnel histories for property C11: only the comparison of the signed bytes of TSS-route
+// packets with the stored packet counts here; any other finding of the donor run is C08's business and is dropped.
+func TestC11Tunnel(t *testing.T) {
+	pbt.Check(t, "C11", genC08, func(c c08Case) *pbt.Verdict {
+		v := runC08(c)
+		if v.Violation != "" && !strings.HasPrefix(v.Signature, "C11/") && v.Signature != "harness" {
+			v.Count("donor_findings_ignored", 1)
+			v.Violation, v.Signature = "", ""
+		}
+		nt := false
+		for _, cl := range v.Classes {
+			if cl == "signed-packet-with-non-available-price" {
+				nt = true
+			}
+		}
+		v.NonTrivial = nt
+		return v
+	})
+}
+
+// TestC13Tunnel re-uses the tunnel histories for property C13 (signing requests made by tunnels are paid signing
+// requests): only the money checks count - the fee payer is charged exactly base + fee_per_signer*threshold for a
+// produced packet and NOTHING for a refused one, the bandtss escrow and the tunnel module hold exactly the reference sums.
+func TestC13Tunnel(t *testing.T) {
+	pbt.Check(t, "C13", genC08, func(c c08Case) *pbt.Verdict {
+		c08MoneyOnly = true
+		defer func() { c08MoneyOnly = false }()
+		v := runC08(c)
+		money := map[string]bool{"C08/fee-payer-balance": true, "C08/module-balance": true, "C08/total-fees": true, "C08/nonce-leak": true}
+		if v.Violation != "" && v.Signature != "harness" {
+			if money[v.Signature] {
+				v.Signature = "C13/tunnel-" + strings.TrimPrefix(v.Signature, "C08/")
+			} else {
+				v.Count("donor_findings_ignored", 1)
+				v.Violation, v.Signature = "", ""
+			}
+		}
+		nt := false
+		for _, cl := range v.Classes {
+			if cl == "failed-send" {
+				nt = true
+			}
+		}
+		v.NonTrivial = nt
+		return v
+	})
+}
